@@ -1298,6 +1298,12 @@ class Engine:
             x = self.arr_getattr(st, o, name, node)
             if x is not NotImplemented:
                 return x
+        if isinstance(o, Bound) and isinstance(o.recv, Obj):
+            # an attribute read used as an object (`m = self.oracle; m.total = t; ... self.model.total`): a field written
+            # through it is read back through it
+            ov = self.bound_as_value(st, o)
+            if (str(ov.t), name) in st.fields:
+                return st.fields[(str(ov.t), name)]
         if isinstance(o, Obj):
             key = (str(o.t), name)
             if key in st.fields:
@@ -1732,6 +1738,8 @@ class Engine:
                 return Num(hp(a))
             if name == 'ghost' and len(args) == 1 and isinstance(args[0], Const):
                 g = st.ghost[args[0].v]
+                if g.sort() == V:
+                    return Obj(g)
                 return Num(g) if g.sort() != B else BoolV(g)
             if name == 'same' and len(args) == 2:
                 a, b = args
